@@ -1,7 +1,8 @@
 """Render QuerySpace.tla records to SQL text over the catalog int1.t1(a,b), int2.t2(a,c), int1.t3(b,c)."""
 
 SCHEMA = {('int1', 't1'): ['a', 'b'], ('int2', 't2'): ['a', 'c'], ('int1', 't3'): ['b', 'c'],
-          ('int1', 't2'): ['a', 'c'], ('int3', 't1'): ['a', 'b']}
+          ('int1', 't2'): ['a', 'c'], ('int3', 't1'): ['a', 'b'],
+          ('int1', 't4'): ['x.y', 'p q']}
 
 W = {
     'none': '', 't1b=1': 't1.b = 1', 't2c=1': 't2.c = 1', 't1b=1&t2c=2': 't1.b = 1 and t2.c = 2',
@@ -129,6 +130,10 @@ def render_single(c):
         return 'with cc as (select a, c from int1.t2) select %s, cc.c from %s join cc on %s = cc.a' % (a, t1, a)
     if b == 'cte-mixedcase':
         return 'with Cc as (select a, c from int1.t2) select %s, Cc.c from %s join Cc on %s = Cc.a' % (a, t1, a)
+    if b == 'quoted-dotted-column':
+        # a column whose (quoted) name contains a dot, and one with a blank: the names must come back as written
+        t4 = t1.replace('int1.t1', 'int1.t4')
+        return 'select `x.y`, `p q` from %s where `x.y` = 1 or `p q` is null' % t4
     if b == 'cte-chained':
         return ('with c1 as (select a, c from int1.t2), c2 as (select a, c from c1 where c > 0) '
                 'select %s, c2.c from %s join c2 on %s = c2.a' % (a, t1, a))
